@@ -2160,7 +2160,7 @@ def gen_audit_as_git_case(rng, cid):
     ws = {"name": "wsaaa", "version": "1.0.0", "source": "path", "workspace": True,
           "deps": [{"name": "fgaaa", "version": v, "source": src, "kinds": ["normal"]}]}
     pkgs = [ws, fp] if rng.random() < 0.5 else [fp, ws]
-    choice = rng.choice([None, None, True, False])
+    choice = rng.choice([None, None, None, True, False])
     policy = {} if choice is None else {rng.choice(["fgaaa", f"fgaaa:{vstr(fp)}"]): {"audit-as-crates-io": choice}}
     store = {"criteria": {}, "policy": policy, "imports": {}, "exemptions": {}, "audits": {}, "wildcard_audits": {},
              "trusted": {}, "lock": {"audits": {}, "publisher": {}, "unpublished": {}}}
@@ -2729,7 +2729,9 @@ def gen_cache_contention_case(rng, cid):
     users = [{"role": "cache", "start_us": rng.randrange(0, 200), "think_us": rng.choice([200, 800, 2000])} for _ in range(n)]
     if rng.random() < 0.4:
         # the first to arrive runs `gc --clean` while holding the cache: the lock file itself must survive it
-        users[0].update({"start_us": 0, "think_us": 2000, "clean": True})
+        users[0].update({"start_us": 0, "think_us": 30000, "clean": True})
+        for u in users[1:]:
+            u["start_us"] = rng.randrange(8000, 20000)      # they arrive while the cleaner is still inside, after it has cleaned
     users += [{"role": "writer", "start_us": rng.randrange(0, 300), "think_us": rng.choice([0, 200])} for _ in range(2)]
     rng.shuffle(users)
     return {"id": cid, "kind": "lock", "users": users, "padding": rng.choice([0, 20, 400])}
